@@ -74,6 +74,8 @@ func evalTransformUsingAppender(
 ) []*sysl.Value {
 	listResult := []*sysl.Value{}
 	scopeVar := x.Scopevar
+	// the scope variable may shadow an outer binding: put it back afterwards
+	outerValue, hasOuter := assign[scopeVar]
 
 	for _, svar := range v {
 		assign[scopeVar] = svar
@@ -81,6 +83,9 @@ func evalTransformUsingAppender(
 		listResult = appender(listResult, res)
 	}
 	delete(assign, scopeVar)
+	if hasOuter {
+		assign[scopeVar] = outerValue
+	}
 	logrus.Tracef("Transform Result (As List/Set): %v", listResult)
 	return listResult
 }
@@ -145,6 +150,7 @@ func (ee *exprEval) evalTransform(assign Scope, x *sysl.Expr_Transform_, e *sysl
 		if argValue.GetMap() != nil && scopeVar != "." {
 			// TODO: add check that return type is defined as 'set of ...'
 			resultList := &sysl.Value_List{}
+			outerValue, hasOuter := assign[scopeVar]
 			// Sort keys, to get stable output
 			var keys []string
 			for key := range argValue.GetMap().Items {
@@ -164,6 +170,9 @@ func (ee *exprEval) evalTransform(assign Scope, x *sysl.Expr_Transform_, e *sysl
 				AppendItemToValueList(resultList, res)
 			}
 			delete(assign, scopeVar)
+			if hasOuter {
+				assign[scopeVar] = outerValue
+			}
 			if e.Type.GetSet() != nil {
 				return &sysl.Value{
 					Value: &sysl.Value_Set{
@@ -178,9 +187,13 @@ func (ee *exprEval) evalTransform(assign Scope, x *sysl.Expr_Transform_, e *sysl
 			}
 		}
 		logrus.Tracef("Argvalue: %v", argValue)
+		outerValue, hasOuter := assign[scopeVar]
 		assign[scopeVar] = argValue
 		res := evalTransformStmts(ee, assign, x.Transform)
 		delete(assign, scopeVar)
+		if hasOuter {
+			assign[scopeVar] = outerValue
+		}
 		logrus.Tracef("Transform Result: %v", res)
 		return res
 	}
